@@ -500,6 +500,46 @@ def check(ctx, run):
         if f.qn == SS + "::replace" and f.params and f.params[0]["ct"] == "const char *":
             return "the size arithmetic of replace is decided by folding (below): the allocated size equals the bytes written for every bounded case"
         return None
+    # the subtractions of the reference tree (alpha-normalised origin forms, frozen by CPV_FREEZE_C13=1 ./check C13): one of THOSE
+    # losing its justification is a violation (a guard was dropped); a subtraction the reference tree does not have is new code whose
+    # safety this syntactic rule cannot judge - it says so (the folds of R3-R5 decide the functions they cover)
+    import json as _json, os as _os
+    subs_path = _os.path.join(_os.path.dirname(_os.path.abspath(__file__)), "c13_subtractions.json")
+    freeze_subs = bool(_os.environ.get("CPV_FREEZE_C13"))
+    known_subs = None if freeze_subs or not _os.path.exists(subs_path) else {tuple(x) for x in _json.load(open(subs_path))}
+    seen_subs = []
+
+    def induction_clause(f, n):
+        """i - c with i a local that starts at a constant >= c and is only ever incremented"""
+        ln, rn = f.strip(f.node(n["lhs"])), f.node(n["rhs"])
+        c_ = const_value(f, rn)
+        if c_ is None or ln is None or ln["k"] != "DeclRefExpr" or ln.get("dk") != "Var":
+            return None
+        did = ln.get("did")
+        init = None
+        for x in f.walk():
+            if x["k"] == "DeclStmt":
+                for d in x.get("decls", []):
+                    if d.get("did") == did and d.get("init") is not None:
+                        init = const_value(f, f.node(d["init"]) if isinstance(d["init"], int) else d["init"])
+        if init is None or init < c_:
+            return None
+        for x in f.walk():
+            tgt = None
+            if x["k"] == "UnaryOperator" and x.get("op") in ("++", "--"):
+                tgt = f.strip(x["c"][0])
+                if tgt is not None and tgt.get("did") == did and x.get("op") == "--":
+                    return None
+            elif x["k"] in ("BinaryOperator", "CompoundAssignOperator") and x.get("op") in ("=", "+=", "-=", "*=", "/=", "%=", "<<=", ">>=", "&=", "|=", "^="):
+                tgt = f.strip(f.node(x["lhs"]))
+                if tgt is not None and tgt["k"] == "DeclRefExpr" and tgt.get("did") == did:
+                    if not (x.get("op") == "+=" and (const_value(f, f.node(x["rhs"])) or -1) >= 0):
+                        return None
+            elif x["k"] == "UnaryOperator" and x.get("op") == "&":
+                tgt = f.strip(x["c"][0])
+                if tgt is not None and tgt["k"] == "DeclRefExpr" and tgt.get("did") == did:
+                    return None
+        return "%s starts at %d and is only incremented, so it is >= %d" % (ln.get("name"), init, c_)
     nsub = 0
     for f in sorted(prog.functions.values(), key=lambda x: (x.file, x.line)):
         if f.file not in UNDERFLOW_UNITS:
@@ -509,14 +549,19 @@ def check(ctx, run):
                 nsub += 1
                 run.analysed(f)
                 txt = render(f, n)
-                why = wraps_excluded(f, n)
+                seen_subs.append((f.qn, akey(f, n)))
+                why = wraps_excluded(f, n) or induction_clause(f, n)
                 if why:
                     run.ob("R2", "%s: %s" % (f.qn, txt), f.site, True, witness=why)
                 elif (f.qn, akey(f, n)) in UNDERFLOW_EXC:
                     run.ob("R2", "%s: %s (frozen exception)" % (f.qn, txt), f.site, True, witness=UNDERFLOW_EXC[(f.qn, akey(f, n))])
+                elif known_subs is not None and (f.qn, akey(f, n)) not in known_subs:
+                    run.broke("C13.R2: %s has a size_t subtraction the reference tree does not have, %s, and no dominating fact or structural clause excludes wrap-around: this rule cannot judge new arithmetic" % (f.qn, txt))
                 else:
                     run.ob("R2", "%s: %s" % (f.qn, txt), f.site, False, witness={"facts": sorted("%s%s" % ("" if v else "!", k) for k, v in facts_at(f, f.where_enclosing(n))), "origin": akey(f, n)},
                            what="unsigned subtraction without a dominating fact that excludes wrap-around; the result is used as an index, length or bound")
+    if freeze_subs:
+        _json.dump(sorted(set(seen_subs)), open(subs_path, "w"), indent=0)
     replace_rule(prog, run, "R2", maxlen=4 + DEEP)
 
     # ---------------- R3 ----------------------------------------------------
@@ -642,29 +687,56 @@ def check(ctx, run):
             cs = [rx(f, c) for c in f.calls() if (prog.callee_name(f, c) or "") == SS + "::copyBufferToNewInternalBuffer" and len(f.args(c)) == 2]
             ok = len(cs) == 1 and bool(re.search(r"\+ 1\)|\(1 \+ ", cs[0]))
             run.ob("R4", "copyBufferToNewInternalBuffer(%s) sizes the copy as length + 1" % f.params[0]["ct"], f.site, ok, witness=cs)
+    # subString(begin, amount) folded with the new string object modelled (its buffer comes from the allocation stub): the text is the
+    # textbook slice, the buffer is sized for it, every write stays inside it and nothing is read outside the source
     sub = [f for f in prog.fns(SS + "::subString") if len(f.params) == 2][0]
     run.analysed(sub)
-    bpos = sub.params[0]["name"]
-    objs = [d for n in sub.walk() if n["k"] == "DeclStmt" for d in n.get("decls", []) if d.get("ct", "").replace("const ", "") == SS and d.get("init") is not None]
-    ntrunc = 0
-    for l, r, n in assignments(sub):
-        m = re.match(r"^(\w+)\.buffer_\[(.+)\]$", l)
-        if m:
-            ntrunc += 1
-            facts = facts_at(sub, sub.where_enclosing(n), subst=True)
-            idx = rx(sub, sub.node(sub.node(n["lhs"])["idx"])) if sub.node(n["lhs"]).get("idx") is not None else m.group(2)
-            ok = ("(%s < %s.size())" % (idx, m.group(1)), True) in facts
-            run.ob("R4", "subString truncates at an index below the new string's size", sub.site, ok, witness=sorted("%s%s" % ("" if v else "!", k) for k, v in facts))
-    if not ntrunc:
-        run.broke("C13.R4: the truncating store of subString was not found")
-    facts_new = None
-    for n in sub.walk():
-        if n["k"] == "DeclStmt" and any(d in objs for d in n.get("decls", [])) and bpos in render(sub, n["decls"][0]["init"]):
-            facts_new = facts_at(sub, sub.where_enclosing(n), subst=True)
+    SINL = {g.qn for g in prog.functions.values() if g.qn.startswith(SS + "::")}
+    bad, ncase = None, 0
+    NPOS = (1 << 64) - 1
+    for text in ("", "a", "ab", "abc"):
+        for b_ in (0, 1, 2, 3, 4, NPOS):
+            for am in (0, 1, 2, 3, 5, NPOS):
+                ncase += 1
+                env = {"buffer_": ("ptr", "A", 0), "bufferSize_": len(text) + 1, sub.params[0]["name"]: b_, sub.params[1]["name"]: am}
+                for i_, ch in enumerate(text + "\0"):
+                    env["A[%d]" % i_] = ord(ch)
+                allocs = []
+                ev = Evaluator(prog, sub, env=env, calls={SS + "::allocStringBuffer": lambda n_, *a_: (allocs.append(n_), ("ptr", "N%d" % len(allocs), 0))[1], SS + "::deallocStringBuffer": lambda *a_: 0})
+                ev.objects = True
+                ev.inline = SINL - set(ev.calls)
+                want = text[b_:b_ + am] if b_ < len(text) else ""
+                why = ""
+                try:
+                    ev.run_blocks(sub.entry, max_steps=8000)
+                    oob = [k_ for k_ in getattr(ev, "absent_reads", []) if re.match(r"^A\[", k_)]
+                    if oob:
+                        why = "reads %s, outside the string" % oob[0]
+                    elif not allocs:
+                        r = getattr(ev, "ret", None)
+                        if not (isinstance(r, tuple) and r[0] == "str" and r[1] == want):
+                            why = "answers %s without building a string, the slice is %r" % (r, want)
+                    else:
+                        st = [(k_, v_) for k_, v_ in ev.stores if re.match(r"^N1\[", k_)]
+                        outside = [k_ for k_, v_ in st if not (0 <= int(k_[3:-1]) < allocs[0])]
+                        got, i_ = "", 0
+                        while ev.env.get("N1[%d]" % i_) not in (None, 0):
+                            got += chr(ev.env["N1[%d]" % i_] & 0xFF)
+                            i_ += 1
+                        if outside:
+                            why = "writes %s of a buffer of %d bytes" % (outside[0], allocs[0])
+                        elif ev.env.get("N1[%d]" % i_) != 0 or got != want:
+                            why = "builds %r, the slice is %r" % (got, want)
+                except Unknown as u:
+                    oob = [k_ for k_ in getattr(ev, "absent_reads", []) if re.match(r"^A\[", k_)]
+                    if not oob:
+                        raise AnalysisBroken("C13.R4: subString cannot be folded on (%r, %d, %d): %s" % (text, b_, am, u))
+                    why = "reads %s, outside the string" % oob[0]
+                if why and bad is None:
+                    bad = "%r.subString(%d, %d): %s" % (text, b_, am, why)
+    run.ob("R4", "subString(begin, amount) folded on %d (string, begin, amount) cases incl. positions at and beyond the end and npos: the textbook slice, written inside a buffer sized for it, nothing read outside the source" % ncase,
+           sub.site, bad is None, witness=bad or "%d cases" % ncase, what=bad or "")
     substring_bound_rule(prog, run, "R4")
-    okn = facts_new is not None and ("(%s < size())" % bpos, True) in facts_new
-    run.ob("R4", "subString builds from buffer + beginPos only when beginPos < size()", sub.site, okn, witness=sorted("%s%s" % ("" if v else "!", k) for k, v in (facts_new or [])),
-           what="" if okn else "a start position at or beyond the end reads outside the buffer (an empty string has size 0)")
 
     # ---------------- R5 ----------------------------------------------------
     INL5 = {g.qn for g in prog.functions.values() if g.qn.startswith(SS + "::")}
